@@ -221,6 +221,13 @@ def check(ctx):
             ctx.fail('C04.1', site, 'assertion vector at this node construction site has an unrecognised form (cannot show non-empty / valid / duplicate-free): %s' % fmt(sv),
                      key='C04.1|form|' + b.path, rule='FLOW/IDIOM-UNKNOWN')
     ctx.count('node_constructor_call_sites', n_sites)
+    # role anchor: the public remove operation must contain the shrinking site judged above
+    rm = F.method1('Envelope', 'remove_assertion')
+    if rm is None:
+        ctx.lost('C04.5', 'Envelope::remove_assertion')
+    elif not any(r['inst'] == 'C04.5' and rm.path in r['site'] for r in getattr(ctx, 'results', []) if r.get('status') in ('pass', 'violation')) and hasattr(ctx, 'results'):
+        ctx.fail('C04.5', ctx.site(rm), 'remove_assertion does not rebuild through node-constructor(subject(self), remove(assertions(self), position(..))) with the collapse test: '
+                 'its result cannot be shown to be the receiver minus exactly the target', key='C04.5|role')
 
 
 def entering(ctx, b, tb, bi, x, site):
